@@ -35,7 +35,7 @@ func init() {
 	log.Root().SetHandler(log.DiscardHandler())
 	kernel.Register(&kernel.Rig{
 		Property: "C06", Name: "R-chain/ledger", Level: "exploration",
-		Rule:        "one run = one seeded transaction mix (swarm weights over plain/token transfers incl. over-balance ones, EVM creations and calls that succeed/revert/hit INVALID/run out of gas at a swept limit, token issue, self-destruct to self/others, value sent after self-destruct, forwarding contracts, multi-signature and upgrade transactions, account->hidden, hidden->hidden with rings from the output index, hidden->account) x 2-12 blocks built from an explicit list or through the mempool, committed on a trie-mode and a kv-mode replica; after every block: sum over ALL trie accounts + unspent hidden outputs == previous total + issued - self-destructed-to-self (per token), every known account == reference ledger on both replicas, fees debited == collector credit == gasUsed x price, failed receipts moved fees only; tampered confidential transactions offered to the mempool and inside blocks. non-trivial = >= 2 blocks and >= 6 transactions committed with at least one failed receipt or one designed exception; distinct = hash of the per-block (state hash, receipt hash, totals)",
+		Rule:        "one run = one seeded transaction mix (swarm weights over plain/token transfers incl. over-balance ones, EVM creations and calls that succeed/revert/hit INVALID/run out of gas at a swept limit, token issue, self-destruct to self/others, value sent after self-destruct, forwarding contracts, multi-signature and upgrade transactions, account->hidden, hidden->hidden with rings from the output index, hidden->account) plus, in 3 of 4 runs, directed transactions appended to every block (contracts holding coin and issued tokens reached by SELFDESTRUCT several times per block and, through a contract that CALLs its target k times, several times per transaction, towards itself / fresh / account / contract / dead contract beneficiaries, also carrying a token as call value; the same inside frames that REVERT or hit INVALID after the inner calls succeeded, at depth 1-2; a contract paying coin and tokens out with TRANSFERTOKEN, covered or not, reverted or repeated; ISSUE repeated and reverted; token-carrying calls that fail; coin and tokens sent to the address of a contract created later in the block; all-or-nothing value-carrying call trees with the gas limit swept across the inner transfer fees; issued tokens entering and leaving the hidden pool) x 2-12 blocks built from an explicit list or through the mempool, committed on a trie-mode and a kv-mode replica; after every block: sum over ALL trie accounts + unspent hidden outputs == previous total + issued - self-destructed-to-self (per token), every known account == reference ledger on both replicas, fees debited == collector credit == gasUsed x price, failed receipts moved fees only; tampered confidential transactions (coin and issued tokens; altered after signing, and altered BEFORE signing so that every signature and proof verifies and only the balance between public amounts and commitments in whole units is broken: account output / fee of k units + r, raised outputs, raised or lowered fee, amounts wrapping 2^64 units) offered to the mempool and inside blocks. non-trivial = >= 2 blocks and >= 6 transactions committed with at least one failed receipt or one designed exception; distinct = hash of the per-block (state hash, receipt hash, totals)",
 		Real:        []string{"app.LinkApplication (CreateBlock, PreRunBlock, CheckBlock, CommitBlock)", "app state processor / state transition", "state.StateDB in trie and kv mode", "vm/evm interpreter incl. token opcodes", "mempool (AddTx, Reap, Update)", "types transaction checks (CheckBasic/CheckState, UTXO commitment balance, ring signatures)", "blockchain.BlockStore", "utxo.UtxoStore", "txmgr", "consensus.BlockExecutor.ApplyBlock/validateBlock", "secp256k1"},
 		Stub:        []string{"consensus state machine (single-validator commit signed by the harness)", "storage engine (SimDB)", "libxcrypto (pure-Go model: group arithmetic real, range proof transparent)", "fee-distribution WASM contract not deployed (fees stay on the collector account)"},
 		Assumptions: []string{"the embedded EVM contracts behave as their 10-line models say when given ample gas (gas-tight calls follow the receipt)", "WASM contracts are exercised in C05 only (their effects are not modelled)", "hidden amounts are known to the generator because it created every output"},
